@@ -1,4 +1,4 @@
-import QipVerif.Lemmas.TranspileDen
+import QipVerif.Lemmas.TranspileRouteDen
 /-!
 # C13 — transpilation targets the device: native gates, coupled qubits, same unitary
 
@@ -179,21 +179,48 @@ example : refusedName (native .linearSpinChain) .SQRTSWAP = true ∧ refusedName
 example : ∃ e, transpile .scQubits 3 [⟨.RX, [0], [], .symb 0⟩, ⟨.SQRTISWAP, [2, 0], [], {}⟩] = .error e :=
   transpile_refuses .scQubits 3 _ ⟨.SQRTISWAP, [2, 0], [], {}⟩ (by simp) (by decide) (by decide)
 
+/-- **The routing stage over ℂ.**  `routeStage` (C07's router run on the converted circuit) preserves
+the denotation of every circuit of shaped gates: C07's `toChain_den_C` transported along the conversion
+of gate types (`interpC ∘ toRoute` identified with `semD`). -/
+theorem routing_stage_den (N : ℕ) (ρ : ℕ → ℝ) (s : Route.Setup) (hs : s = .linear ∨ s = .circular)
+    (gs out : List Gate) (hsh : ∀ g ∈ gs, shapedB N g = true) (h : routeStage N s gs = .ok out)
+    (U : Matrix (St N) (St N) ℂ) (hU : denG N ρ gs = some U) : denG N ρ out = some U :=
+  routeStageDen N ρ s gs out hs hsh h U hU
+
 /-- **transpile_den.**  The transpiled circuit denotes exactly the unitary of the input circuit
-(`denG`: ordered product of the embedded library matrices, global phase included), for every
-valuation `ρ` of the symbolic angles.  The two decomposition stages are discharged by
-`C03.resolve_den_partial`; the routing stage enters as the named hypothesis `RouteStageDen`
-(ℂ-instantiation of C07's `route_den` along the conversion of gate types).  `phOK`: a PHASEGATE with
-a fixed angle is a multiple of π/4 (limitation of the model's exact angle representation, see C03). -/
-theorem transpile_den (dev : Device) (N : ℕ) (ρ : ℕ → ℝ) (hroute : RouteStageDen N ρ)
+(`denG`: ordered product of the embedded library matrices over ℂ, global phase included), for every
+register size, every device, every circuit of the class that has a denotation and every valuation
+`ρ` of the symbolic angles.  No hypothesis about matrices is left: the decomposition stages are
+`C03.resolve_den_partial`, the routing stage is `routing_stage_den`.  `phOK`: a PHASEGATE with a
+FIXED angle is a multiple of π/4 (limitation of the model's exact angle representation, see C03;
+symbolic PHASEGATE angles are unrestricted). -/
+theorem transpile_den (dev : Device) (N : ℕ) (ρ : ℕ → ℝ)
     (gs out : List Gate) (hg : ∀ g ∈ gs, InClass N g) (hph : ∀ g ∈ gs, phOK g = true)
     (h : transpile dev N gs = .ok out)
     (U : Matrix (St N) (St N) ℂ) (hU : denG N ρ gs = some U) : denG N ρ out = some U := by
   obtain ⟨hb, _, _, ht, _⟩ := native_valid dev
-  exact transpileV_den preDecompose hroute (by rw [hb]; rfl) ht hg hph
+  exact transpileV_den preDecompose (routeStageDen N ρ) (by rw [hb]; rfl) ht hg hph
     (fun hpre => by rw [source_is_repaired] at hpre; cases hpre) h U hU
 
-example : (∀ g ∈ [(⟨.TOFFOLI, [2], [0, 1], {}⟩ : Gate), ⟨.PHASEGATE, [1], [], .symb 0⟩], phOK g = true) := by decide
+-- non-vacuity: a 4-qubit circuit with a three-qubit gate, a distant CNOT and a Pauli meets every hypothesis
+example (ρ : ℕ → ℝ) :
+    let gs : List Gate := [⟨.TOFFOLI, [2], [0, 1], {}⟩, ⟨.CNOT, [0], [3], {}⟩, ⟨.X, [1], [], {}⟩,
+      ⟨.PHASEGATE, [3], [], .pi8 2⟩]
+    (∀ g ∈ gs, InClass 4 g) ∧ (∀ g ∈ gs, phOK g = true) ∧
+    (transpile .circularSpinChain 4 gs).toOption.isSome = true ∧ ∃ U, denG 4 ρ gs = some U := by
+  refine ⟨?_, by decide, by decide +kernel, denG_isSome_of_denE 4 ρ _ (by decide) (by decide +kernel)⟩
+  intro g hg
+  simp only [List.mem_cons, List.not_mem_nil, or_false] at hg
+  rcases hg with rfl | rfl | rfl | rfl <;> exact ⟨by decide, by decide⟩
+
+/-- **… also for the code as found**, for circuits without gates on more than two qubits -/
+theorem transpile_den_partial (dev : Device) (N : ℕ) (ρ : ℕ → ℝ)
+    (gs out : List Gate) (hg : ∀ g ∈ gs, InClass N g) (hph : ∀ g ∈ gs, phOK g = true)
+    (h2q : ∀ g ∈ gs, g.qubits.length ≤ 2)
+    (h : transpileV tables false (deviceSpec dev) N gs = .ok out)
+    (U : Matrix (St N) (St N) ℂ) (hU : denG N ρ gs = some U) : denG N ρ out = some U := by
+  obtain ⟨hb, _, _, ht, _⟩ := native_valid dev
+  exact transpileV_den false (routeStageDen N ρ) (by rw [hb]; rfl) ht hg hph (fun _ => h2q) h U hU
 
 /-! ## the code as found violates the coupling clause — concrete witnesses
 
